@@ -208,10 +208,11 @@ func inlineTrivial(pkgs map[string]*packages.Package) ([]string, error) {
 					continue
 				}
 				// copy of the expression with the arguments in place of the parameters
-				cp, err := parser.ParseExprFrom(p.Fset, "", exprText(cd.expr), 0)
+				cp, err := parser.ParseExprFrom(token.NewFileSet(), "", exprText(cd.expr), 0)
 				if err != nil {
 					continue
 				}
+				setPositions(cp, st.pos) // the copy lives at the call site (scope lookups by position must find the caller's scope)
 				names := map[string]ast.Expr{}
 				for i, v := range cd.params {
 					names[v.Name()] = st.call.Args[i]
